@@ -134,6 +134,21 @@ def Pkt.icmpId (p : Pkt) : Option Nat :=
     some (be16 p.upper 4)
   else none
 
+/-- Number of upper-layer bytes that must be present for the classification to be read off the packet
+(what nebula's classifier insists on before it accepts): nothing for a non-first fragment; IPv4: the four
+port bytes (the code reads them for every protocol), six for ICMP (identifier); IPv6: four for TCP / UDP
+(ports) and ICMPv6 (type, code, checksum), six for an ICMPv6 echo (identifier), nothing for other protocols. -/
+def Pkt.minUpper (p : Pkt) : Nat :=
+  if p.nonFirstFrag then 0
+  else if p.version = 4 then (if p.proto = 1 then 6 else 4)
+  else if p.proto = 6 ∨ p.proto = 17 then 4
+  else if p.proto = 58 then
+    (if 4 ≤ p.upper.length ∧ (byte p.upper 0 = 128 ∨ byte p.upper 0 = 129) then 6 else 4)
+  else 0
+
+/-- the upper-layer header is long enough to be classified -/
+def Pkt.classifiable (p : Pkt) : Bool := p.minUpper ≤ p.upper.length
+
 /-- A reported classification (the observable fields of `firewall.ParsedPacket`). -/
 structure Class where
   localAddr : Bytes
